@@ -245,3 +245,15 @@ pub fn decode_tolerantly(ty: &Ty, bytes: &[u8]) -> Vec<String> {
         _ => vec!["not a declaration".into()],
     }
 }
+
+/// a sequence written through `serialize_iterator` (size hint `(lo, hi)`) followed by another value, in one stream
+pub fn encode_iter_then(elem: &Ty, xs: &[Val], lo: usize, hi: Option<usize>, next: &(Ty, Val)) -> Result<Vec<u8>, ErrInfo> {
+    use desert::BinarySerializer;
+    live::reset_tls();
+    let items: Vec<Live> = xs.iter().map(|x| Live::from_val(elem, x)).collect();
+    let mut ctx = desert::SerializationContext::new(Vec::new());
+    let mut it = Inexact(items.iter(), lo, hi);
+    desert::serialize_iterator(&mut it, &mut ctx).map_err(|e| errinfo(&e))?;
+    Live::from_val(&next.0, &next.1).serialize(&mut ctx).map_err(|e| errinfo(&e))?;
+    Ok(ctx.into_output())
+}
